@@ -19,10 +19,96 @@ def _root_attr(node):
     return None
 
 
+def _alias_sources(e):
+    """expressions whose value may be (part of) an existing object: yields Name / Attribute / Subscript nodes.
+    Results of calls are taken to be fresh objects, except the transparent iteration helpers."""
+    if isinstance(e, (ast.Name, ast.Attribute, ast.Subscript)):
+        yield e
+    elif isinstance(e, ast.IfExp):
+        yield from _alias_sources(e.body)
+        yield from _alias_sources(e.orelse)
+    elif isinstance(e, ast.BoolOp):
+        for v in e.values:
+            yield from _alias_sources(v)
+    elif isinstance(e, ast.NamedExpr):
+        yield from _alias_sources(e.value)
+    elif isinstance(e, (ast.Tuple, ast.List)):
+        for v in e.elts:
+            yield from _alias_sources(v)
+    elif isinstance(e, ast.Call) and isinstance(e.func, ast.Name) and e.func.id in ("enumerate", "zip", "reversed", "iter"):
+        for a in e.args:
+            yield from _alias_sources(a)
+    elif isinstance(e, ast.Call) and isinstance(e.func, ast.Attribute) and e.func.attr in ("items", "values", "get"):
+        yield from _alias_sources(e.func.value)
+
+
+def local_aliases(fn: ast.FunctionDef):
+    """flow-insensitive may-alias map: local name -> set of (root name, attribute) whose object (or a part of it) the
+    local may denote (assignment, for-target, conditional expression, tuple unpacking; to a fixpoint)"""
+    params = {a.arg for a in fn.args.args + fn.args.kwonlyargs}
+    alias = {}
+
+    def roots(e):
+        out = set()
+        for src in _alias_sources(e):
+            if isinstance(src, ast.Name):
+                out |= alias.get(src.id, set())
+            else:
+                ra = _root_attr(src)
+                if ra:
+                    if ra[0] in alias and ra[0] not in params:
+                        out |= alias[ra[0]]          # a part of something a local aliases
+                    else:
+                        out.add(ra)
+        return out
+
+    def bind(target, r):
+        changed = False
+        if isinstance(target, ast.Name):
+            if target.id not in params and not r <= alias.get(target.id, set()):
+                alias.setdefault(target.id, set()).update(r)
+                changed = True
+        elif isinstance(target, (ast.Tuple, ast.List)):
+            for t in target.elts:
+                changed |= bind(t, r)
+        elif isinstance(target, ast.Starred):
+            changed |= bind(target.value, r)
+        return changed
+
+    changed = True
+    while changed:
+        changed = False
+        for n in ast.walk(fn):
+            if isinstance(n, ast.Assign):
+                r = roots(n.value)
+                for t in n.targets:
+                    changed |= bind(t, r)
+            elif isinstance(n, ast.AnnAssign) and n.value is not None:
+                changed |= bind(n.target, roots(n.value))
+            elif isinstance(n, (ast.For, ast.comprehension)):
+                changed |= bind(n.target, roots(n.iter))
+            elif isinstance(n, ast.NamedExpr):
+                changed |= bind(n.target, roots(n.value))
+            elif isinstance(n, ast.withitem) and n.optional_vars is not None:
+                changed |= bind(n.optional_vars, roots(n.context_expr))
+    return alias
+
+
 def direct_writes(fn: ast.FunctionDef):
-    """{(receiver name, attribute)} written by assignments / augmented assignments / mutating method calls, and the
-    set of (receiver name, method) calls"""
+    """{(receiver name, attribute)} written by assignments / augmented assignments / mutating method calls - directly
+    or through a local that may alias (a part of) the attribute - and the set of (receiver name, method) calls"""
     writes, calls = set(), set()
+    alias = local_aliases(fn)
+
+    def via_local(node):
+        """a write through  <local>[...] / <local>.attr / <local>.mutator()  hits everything the local may alias"""
+        base = node
+        while isinstance(base, (ast.Subscript, ast.Attribute)):
+            base = base.value
+        if isinstance(base, ast.Name) and base.id in alias:
+            return alias[base.id]
+        return set()
+
     for n in ast.walk(fn):
         targets = []
         if isinstance(n, ast.Assign):
@@ -34,8 +120,12 @@ def direct_writes(fn: ast.FunctionDef):
         for t in targets:
             for sub in ([t] if not isinstance(t, (ast.Tuple, ast.List)) else t.elts):
                 ra = _root_attr(sub) if not isinstance(sub, ast.Name) else None
-                if ra:
+                if ra and not (ra[0] in alias):
                     writes.add(ra)
+                if not isinstance(sub, ast.Name):
+                    writes |= via_local(sub)
+                elif isinstance(n, ast.AugAssign) and sub.id in alias:
+                    writes |= alias[sub.id]          # `x += ...` mutates a list / array in place
         if isinstance(n, ast.Call) and isinstance(n.func, ast.Attribute):
             recv = n.func.value
             if isinstance(recv, ast.Name):
@@ -44,8 +134,9 @@ def direct_writes(fn: ast.FunctionDef):
                 calls.add(("self", n.func.attr))
             if n.func.attr in MUTATING_CALLS:
                 ra = _root_attr(recv)
-                if ra:
+                if ra and not (ra[0] in alias):
                     writes.add(ra)
+                writes |= via_local(recv)
     return writes, calls
 
 
